@@ -12,6 +12,7 @@ from pyasn1.codec.ber import eoo
 from pyasn1.compat.integer import to_bytes
 from pyasn1.compat.octets import (int2oct, oct2int, ints2octs, null,
                                   str2octs, isOctetsType)
+from pyasn1.type import base
 from pyasn1.type import char
 from pyasn1.type import tag
 from pyasn1.type import univ
@@ -539,8 +540,15 @@ class SequenceEncoder(AbstractItemEncoder):
 
     @staticmethod
     def _isDefaultValue(component, namedType):
+        default = namedType.asn1Object
+
         try:
-            return component == namedType.asn1Object
+            if (not isinstance(component, base.Asn1Item) and
+                    isinstance(default, base.SimpleAsn1Type)):
+                # plain Python data compares as the value it stands for
+                component = default.clone(component)
+
+            return component == default
 
         except error.PyAsn1Error:
             # one of the two holds an unset (schema) component where the
